@@ -32,6 +32,26 @@ def _val(v, t):
     return v.c + v.k * t if isinstance(v, Aff) else v
 
 
+_LG = {}
+
+
+def _long_worker(idx):
+    """(b') one share of the long additions (forked: the routine, the enumerators and the table cache come with the process)"""
+    fadd, E, tabs, tasks = _LG["fadd"], _LG["E"], _LG["tabs"], _LG["tasks"]
+    bad = []
+    for i in idx:
+        d, cnt, exp = tasks[i]
+        src = {"typ": E["DT_YMD"], "sandwich": 1, "d.typ": E["DT_YMD"], "d.ymd.y": d.year, "d.ymd.m": d.month, "d.ymd.d": d.day,
+               "t.typ": E["DT_HMS"], "t.hms.h": d.hour, "t.hms.m": d.minute, "t.hms.s": d.second, "t.hms.ns": 0}
+        fo = fold.Folder(fadd, calls={}, inline=True, max_steps=3000000)
+        fo._tabs = tabs
+        r = fo.run([dict(src), {"durtyp": E["DT_DURS"], "dv": cnt, "neg": 0, "tai": 1}])
+        got = tuple(r.get(f_) for f_ in ("d.ymd.y", "d.ymd.m", "d.ymd.d", "t.hms.h", "t.hms.m", "t.hms.s"))
+        if got != exp:
+            bad.append((d.isoformat(), cnt, str(got), str(exp)))
+    return bad
+
+
 def run(R, P, rule):
     tz = P.tu("libdut_a-tzraw.o")
     dtu = P.tu("libdut_a-dt-core.o")
@@ -204,14 +224,11 @@ def run(R, P, rule):
         else:
             R.ob(rule, "adding N real seconds from %d starts around inserted leap seconds, N in +-45: exactly N SI seconds later, through 23:59:60" % len(starts), True)
         # ---- (b') long additions: from next to one inserted second to next to another one, several inserted seconds in between
-        badl = []
         marks = steps[-4:] + steps[:2]
-        nl = 0
+        tasks = []
         for (ti, ci) in marks:
             for off in (-9, 0, 1):
                 d = datetime.datetime(1970, 1, 1) + datetime.timedelta(seconds=ti + off)
-                src = {"typ": E["DT_YMD"], "sandwich": 1, "d.typ": E["DT_YMD"], "d.ymd.y": d.year, "d.ymd.m": d.month, "d.ymd.d": d.day,
-                       "t.typ": E["DT_HMS"], "t.hms.h": d.hour, "t.hms.m": d.minute, "t.hms.s": d.second, "t.hms.ns": 0}
                 for (tj, cj) in marks:
                     if tj == ti:
                         continue
@@ -219,17 +236,16 @@ def run(R, P, rule):
                         # SI count of (the inserted second + k): tj - 1 is 23:59:59, the inserted second follows it
                         target = (tj - 1) + tai(tj - 1) + 1 + k
                         cnt = target - si(d)
-                        if not (-2 ** 31 < cnt < 2 ** 31):
-                            continue
-                        fo = fold.Folder(fadd, calls={}, inline=True, max_steps=3000000)
-                        fo._tabs = tabs
-                        r = fo.run([dict(src), {"durtyp": E["DT_DURS"], "dv": cnt, "neg": 0, "tai": 1}])
-                        n += 1
-                        nl += 1
-                        got = tuple(r.get(f_) for f_ in ("d.ymd.y", "d.ymd.m", "d.ymd.d", "t.hms.h", "t.hms.m", "t.hms.s"))
-                        exp = from_si(target)
-                        if got != exp:
-                            badl.append((d.isoformat(), cnt, str(got), str(exp)))
+                        if -2 ** 31 < cnt < 2 ** 31:
+                            tasks.append((d, cnt, from_si(target)))
+        _LG.update(fadd=fadd, E=E, tabs=tabs, tasks=tasks)
+        import multiprocessing as mp
+        jobs = 12
+        with mp.get_context("fork").Pool(jobs) as pool:
+            parts = pool.map(_long_worker, [list(range(i_, len(tasks), jobs)) for i_ in range(jobs)])
+        badl = [b for part in parts for b in part]
+        nl = len(tasks)
+        n += nl
         if badl:
             day, t, got, exp = sorted(badl)[0]
             R.finding(rule, fadd, "adding real seconds across several inserted seconds", "%d of %d (start, count) points differ; first: %s %+d real "
